@@ -12,7 +12,7 @@ CHECKS = {
         cat="proof", ref="3 C03",
         technique="abstract interpretation of rustc MIR on a bit-granular domain (per-bit Boolean functions of symbolic table bits), compared with the specification bit functions",
         text="For every n in the tier's range, every index (pair) and both table types, the abstract result of each public transform on a table of symbolic bits equals the specified bit permutation/selection exactly, for all table contents at once; copying forms are shown to leave the receiver unchanged and from_cofactors(cofactors(f)) = f by composition. A refutation names the method, partition and an exact differing bit.",
-        note="Trusted: " + TB + ". Loops are unrolled per concrete n (quick 1..8, thorough 1..12); larger n follow the same code path and are not claimed. Inputs assumed well formed (C02).",
+        note="Trusted: " + TB + ". Loops are unrolled per concrete n (quick 1..10, thorough 1..12); larger n follow the same code path and are not claimed. Inputs assumed well formed (C02).",
     ),
 }
 
@@ -20,18 +20,18 @@ BF = "abstract interpretation of rustc MIR on a bit-granular domain (per-bit Boo
 CHECKS.update({
     "C01": dict(cat="proof", ref="3 C01", technique=BF + "; forms discovered from the trait/inherent impls",
         text="Every discovered form of NOT/AND/OR/XOR (28 per type: named, in-place, operator traits by value/reference, compound assignment) is run on tables of symbolic bits for each n: the result equals a(m) op b(m) at every position (NOT re-masked above 2^n), has the right size, and borrowed operands are unchanged - for all table contents at once. Sibling forms agree because each equals the same specification; a per-operator form count guards against vacuity.",
-        note="Trusted: " + TB + ". n in 0..8 (quick) / 0..12 (thorough), loops unrolled per n. Operand tables assumed well formed (C02); size mismatches are C17."),
+        note="Trusted: " + TB + ". n in 0..12 (quick) / StaticLut 0..12 and Lut 0..14 (thorough), loops unrolled per n. Operand tables assumed well formed (C02); size mismatches are C17."),
     "C02": dict(cat="proof", ref="3 C02", technique="ownership rule on ADT field visibility + inductive invariant proved per public producer by bit-granular abstract interpretation of MIR (unused bits constant 0, block count) + abstract summary of eq/cmp",
         text="Inductive invariant over all API histories: the representation fields are private to their module (rustc privacy), and every externally reachable body of those modules that returns or mutates a table is shown, on well-formed symbolic inputs and a partition of valid arguments, to hand back tables with table_size(n) blocks, the right num_vars and constant-0 bits at positions >= 2^n; derived/abstractly summarised eq, hash and cmp compare exactly the representation.",
-        note="Trusted: " + TB + "; rustc privacy checking. from_blocks exempt by its stated precondition (checked to copy verbatim). Canonization producers use join-at-top for the data-dependent comparisons. n in 0..6 (quick) / 0..8 (thorough)."),
+        note="Trusted: " + TB + "; rustc privacy checking. from_blocks exempt by its stated precondition (checked to copy verbatim). Canonization producers use join-at-top for the data-dependent comparisons. n in 0..6 (quick) / 0..8 (thorough); a dynamic Lut handed to a generic StaticLut<N,T> impl (TryFrom) is run for every pair (n_in, N)."),
     "C06": dict(cat="proof", ref="3 C06", technique="abstract interpretation of MIR to path-condition/class pairs over clause-set Booleans; uniform-pair-predicate abstraction and exhaustive comparison with the statement's decision list",
         text="top_decomposition, is_pos_unate and is_neg_unate are run on a symbolic table for every (n, v): each path yields (condition, class). For n <= 3 the summary is compared with the statement on all tables; for n >= 4 every condition is shown to be the same per-position predicate on (c0,c1) at all 2^(n-1) positions and the decision is compared with the statement on all 15 non-empty value-pair sets. A refutation is a concrete table with the wrong class.",
-        note="Trusted: " + TB + "; spec_class() is the reading of the statement. n in 1..8 (quick) / 1..10 (thorough); cross-word path unrolled per n."),
+        note="Trusted: " + TB + "; spec_class() is the reading of the statement. n in 1..10 (quick) / 1..12 (thorough); cross-word path unrolled per n; clauses that OR/AND the mismatches of several words before the test are split back into per-position parts."),
     "C11": dict(cat="proof", ref="3 C11", technique=BF,
         text="Every named constructor of both types is run for each n, each index and each k in 0..n+2 plus {63,64,65,usize::MAX} (symmetric with a symbolic count mask): the resulting table equals the specified function bit for bit, with no feasible panic.",
-        note="Trusted: " + TB + ". n in 0..8 (quick, debug configuration) / 0..12 (+14 for Lut) in both build configurations (thorough)."),
+        note="Trusted: " + TB + ". n in 0..10 (quick, debug configuration) / 0..12 (+14 for Lut) in both build configurations (thorough)."),
     "C17": dict(cat="proof", ref="3 C17", technique="abstract interpretation of MIR under two build configurations (debug-assertions+overflow-checks on/off): reachability of a return for invalid-argument partitions, equality of abstract results for valid ones",
-        text="For every public method with an index/assignment/block-slice parameter, n in 0..8 and a partition of invalid values (n, n+1, 31/32, 63/64/65, n+70, usize::MAX; wrong slice lengths; mismatched operand sizes for every binary form of Lut), no path returns under either configuration; for valid arguments the abstract results of both configurations are identical and no panic path is feasible.",
+        text="For every public method with an index/assignment/block-slice parameter, n in 0..8 (thorough 0..10) and a partition of invalid values (n, n+1, 31/32, 63/64/65, n+70, usize::MAX; wrong slice lengths; mismatched operand sizes for every binary form of Lut), no path returns under either configuration; for valid arguments the abstract results of both configurations are identical and no panic path is feasible.",
         note="Trusted: " + TB + " for both configurations. StaticLut size mismatches are rejected by the type checker (compile-fail witness in C10 thorough). Canonization, bdd and text methods take no index parameter and are outside this property's scope."),
 })
 
@@ -44,13 +44,13 @@ CHECKS.update({
         text="Along the path where no comparison succeeds the returned certificate is the identity; along the path where exactly the k-th comparison succeeds the returned table is the k-th visited table and the returned (perm, mask) maps the symbolic input to it by the statement's formula, perm a permutation and mask without bits above n - for every comparison index k (sampled for the longest walks in the quick tier), every n in range, both types.",
         note="Partial: n ranges as C04. Paths with several successful comparisons are covered by the last-success index only (decoder depends only on the final index). Trusted: " + TB),
     "C08": dict(cat="other", ref="3 C08", technique="abstract summary of Ord::cmp on symbolic tables (reversed word views, lexicographic); per-path word-level terms of the successor kernel; iterator typestate by abstract interpretation",
-        text="Ord::cmp of both types compares the two tables word for word, most significant word first, as unsigned integers (Lut: variable count first); PartialOrd forwards to it. The iterator hands out a copy of the current table, steps it by (w+1)&mask per word with carry into the next word exactly on wrap-around, clears its flag exactly when all words wrapped, and yields None afterwards; all_functions starts at zero.",
+        text="Ord::cmp of both types compares the two tables word for word, most significant word first, as unsigned integers (Lut: variable count first); PartialOrd forwards to it (a comparison written as control flow - compare a block, return on difference - is recognised and summarised the same way). The iterator hands out a copy of the current table, steps it by (w+1)&mask per word with carry into the next word exactly on wrap-around, clears its flag exactly when all words wrapped, and yields None afterwards; all_functions starts at zero.",
         note="Not decided: the induction from the per-step facts to 'every function exactly once', transitivity of integer order, agreement with hex order (C09). Trusted: " + TB + "; multiword-increment lemma."),
     "C10": dict(cat="proof", ref="3 C10", technique="type-level facts (aliases, API parity) + differential abstract interpretation of Lut vs StaticLut methods on identical symbolic inputs (uninterpreted functions for unmodelled read-only kernels) + bitflow on conversions",
         text="All 13 aliases tie N to max(1,2^N/64) blocks and are exported; every public method/trait impl has its counterpart; for every common method, n and valid argument partition the abstract results of Lut and StaticLut on the same symbolic table are identical; TryFrom fails exactly on a different variable count and copies blocks verbatim, From copies verbatim, integer conversions map bit m to f(m) with matching widths.",
         note="Trusted: " + TB + "; read-only kernels that are not modelled (formatting, BDD counting) are treated as uninterpreted functions of their abstract arguments. Compile-fail witnesses W2/W3 run in the thorough tier."),
-    "C19": dict(cat="other", ref="3 C19", technique="bit-provenance by abstract interpretation: every result bit is traced to a distinct fresh generator bit or the constant 0",
-        text="In random() of both types every table bit below 2^n is a copy of a distinct bit of a fresh next_u64 draw from rand::thread_rng (one draw per word), every bit at or above 2^n is constant 0, the crate has no static state, and the function disappears without the rand feature (thorough).",
+    "C19": dict(cat="other", ref="3 C19", technique="bit-provenance by abstract interpretation: every result bit is traced to a distinct fresh generator bit or the constant 0; who-may-construct rule with a backward slice of the seed operand of every explicitly seeded generator (MIR def-use, statics named by the driver)",
+        text="In random() of both types every table bit below 2^n is a copy of a distinct bit of a fresh next_u64 draw from rand::thread_rng (one draw per word), every bit at or above 2^n is constant 0, the crate has no static state, and the function disappears without the rand feature (thorough). Any explicitly seeded generator (seed_from_u64/from_seed/..::new) built per call or per thread whose seed derives only from constants and write-once statics is a violation (same stream for every call / thread).",
         note="Not decided: statistical quality/independence of rand's generator (trusted dependency)."),
 })
 
@@ -59,21 +59,21 @@ OPQ = "abstract interpretation of the container code on symbolic containers of f
 CHECKS.update({
     "C09": dict(cat="other", ref="3 C09", technique=TOK + " for the printers; abstract interpretation of the parser on symbolic strings partitioned by length, with a summary of u64::from_str_radix",
         text="to_hex_string/to_bin_string emit one zero-padded lower-hex/binary token per word, most significant word first, with the specified per-word width; Display/LowerHex/Binary wrap them as Lut<n>(...). from_hex_string: wrong lengths and non-ASCII text only reach Err, no path panics (slicing guarded), on every Ok path each chunk passed an all-hex-digits test before from_str_radix (which accepts '+'), lands in the matching word and fits in 2^n bits.",
-        note="Not decided: that core::fmt renders the value's digits (trusted std), upper-case acceptance. n in 0..8 / 0..12."),
+        note="Not decided: that core::fmt renders the value's digits (trusted std), upper-case acceptance. n in 0..12."),
     "C12": dict(cat="other", ref="3 C12", technique="lane abstraction: conditions/results of the 32-lane cube code are shown to be uniform per-lane predicates/functions and compared with the semantic specification on every non-empty set of lane values; shift constructors by bitflow in 32-bit word mode",
         text="value, is_zero/is_one/is_constant, implies, intersects, all four & forms, from_mask and derived equality are exact for all canonical cubes at once (32 lanes, symbolic), contradictory products are the one canonical zero; minterm is exact for every num_vars in 0..=32 with a symbolic assignment; nth_var/nth_var_inv/one/zero as specified.",
         note="Counts, literal iterators, from_vars, implies_lut (n<=2) and Cube::all (n<=3) are decided on variable windows only (small-domain evaluation of the summaries). Inputs are canonical cubes (fields private; every analysed constructor returns canonical cubes). Trusted lemma: containment of literal sets is implication for canonical cubes."),
-    "C13": dict(cat="other", ref="3 C13", technique="bitflow with xor-sum bit values for Ecube (all 32 lanes); " + OPQ + " for Soes",
-        text="Ecube::value is the parity of (vars & m) xor the flag for all 2^32 terms and assignments; ^ and ! act field-wise in all 6 forms; constants, single-variable terms, is_zero/is_one exact; equality derived over a canonical representation. Soes (0..3 symbolic terms): value is the OR over all terms, all four | forms keep every term of both operands, conversion to Lut tabulates value (n<=3), is_zero only for the empty form, is_one only when a term is the constant one.",
+    "C13": dict(cat="other", ref="3 C13", technique="bitflow with xor-sum bit values for Ecube (all 32 lanes); " + OPQ + " for Soes; window-mode abstract interpretation of | on real XOR terms over two variables, summary evaluated on every operand choice",
+        text="Ecube::value is the parity of (vars & m) xor the flag for all 2^32 terms and assignments; ^ and ! act field-wise in all 6 forms; constants, single-variable terms, is_zero/is_one exact; equality derived over a canonical representation. Soes (0..3 symbolic terms): value is the OR over all terms, all four | forms keep every term of both operands, conversion to Lut tabulates value (n<=3), is_zero only for the empty form, is_one only when a term is the constant one. On real terms over a two-variable window (up to 2+2 terms) | denotes the OR of the operands for every choice of terms.",
         note="Ecube::all decided for n<=3 (folded), counts/vars/from_vars/implies_lut on variable windows. Containers analysed for lengths 0..3 incl. repeated and shared terms (length-generic loops)."),
-    "C14": dict(cat="other", ref="3 C14", technique=OPQ + " (value, products, is_zero, implies, == opaque); per-path comparison with the specification of simplification, union, product, complement; Lut->Sop on symbolic tables",
-        text="value is the OR of all cubes; every form of | and & runs the simplification last on the container it returns; | keeps all cubes, & forms all pairwise products; simplification drops exactly zero cubes, sorts+dedups, and keeps a cube iff it implies no other cube (receiver/argument roles); complement is the De Morgan fold from the constant one with inverted literals; Lut->Sop emits exactly the minterms (n<=2 quick, 3 thorough); is_zero/is_one sound.",
-        note="Not decided: that absorption preserves the function (trusted lemma), sort/dedup themselves (std, recorded as events). Lengths 0..3."),
-    "C15": dict(cat="other", ref="3 C15", technique=OPQ + "; Lut->Esop by path-sensitive abstract interpretation on symbolic tables (every abstract path)",
-        text="value is the XOR of all cubes; ^ concatenates in all four forms; ! appends exactly one constant-one cube; conversion to Lut tabulates value; is_zero/is_one only for the constants. Lut->Esop (n<=2 quick, 3 thorough): on every path the emitted cubes are all-positive, below 2^n, strictly increasing, and exactly the non-zero algebraic-normal-form coefficients of the path's function.",
-        note="Lut->Esop is bounded to n<=3 (one abstract path per function); larger n not decided."),
+    "C14": dict(cat="other", ref="3 C14", technique=OPQ + " (value, products, is_zero, implies, == opaque), every realisable valuation of the predicates enumerated; window-mode abstract interpretation of |, &, ! on real cubes over two variables (the cubes' own Ord/PartialEq/implies run in the interpreter, sort/dedup/retain semantic), summary evaluated on every canonical operand choice; Lut->Sop on symbolic tables",
+        text="value is the OR of all cubes; every form of | and & runs the simplification last on the container it returns; | keeps all cubes, & forms all pairwise products; simplification keeps, on every realisable valuation of the opaque predicates, exactly the non-zero cubes implying no other cube; complement is the De Morgan fold from the constant one with inverted literals; Lut->Sop emits exactly the minterms (n<=2 quick, 3 thorough); is_zero/is_one sound. On real cubes over a two-variable window (operands up to 2+2 / 0+3 cubes) |, & and ! denote OR, AND and complement and return a cover with no contradictory cube, no duplicate and no cube implying another, for every canonical choice of operand cubes.",
+        note="Beyond the window sizes the argument is: simplification runs last (C14.M) + its specification on opaque predicates (C14.S) + the trusted absorption lemma. std::sort is modelled as the stable sort by the elements' own order. Lengths 0..3."),
+    "C15": dict(cat="other", ref="3 C15", technique=OPQ + "; Lut->Esop by path-sensitive abstract interpretation on symbolic tables (every abstract path; for larger n a few symbolic table bits at a time); window-mode abstract interpretation of ^ and ! on real cubes over two variables",
+        text="value is the XOR of all cubes; ^ concatenates in all four forms; ! appends exactly one constant-one cube; conversion to Lut tabulates value; is_zero/is_one only for the constants. Lut->Esop (all functions for n<=2 quick, 3 thorough; for n = 3..8, thorough 10, functions with a few symbolic table bits and 0 elsewhere): on every path the emitted cubes are all-positive, below 2^n, without duplicate, and exactly the non-zero algebraic-normal-form coefficients of the path's function. On real cubes over a two-variable window ^ and ! denote XOR and complement.",
+        note="Lut->Esop for n >= 4 is decided on windows of table bits only (positions with at most two 0 index bits, bit 0, {5, 2^(n-1)}), not for all functions."),
     "C16": dict(cat="other", ref="3 C16", technique=TOK + "; cube/ecube printers followed on every abstract path of a symbolic object over variable windows, text compared with the object through the grammar",
-        text="Cube and Ecube text over windows {0,1,2}, two-digit indices and variable 31: every object prints a product / xor of its literals in increasing order, 1/0 for the constants, distinct objects distinct text. Sop/Soes join their terms with ' | ' and Esop with ' ^ ' (the operator value() reduces with), each term once in order, empty form prints 0.",
+        text="Cube and Ecube text over windows {0,1,2}, two-digit indices and variable 31: every object prints a product / xor of its literals in increasing order, 1/0 for the constants, distinct objects distinct text. Sop/Soes join their terms with ' | ' and Esop with ' ^ ' (the operator value() reduces with), each term once in order, empty form prints 0. value() of each of the five types is the denotation of its representation (conjunction of literals, zero cube false, parity, OR/XOR of the term values), so the text denotes what value() returns.",
         note="Not decided: precedence beyond the joiner (term text never contains a looser joiner). Windows are samples of the 32 variables; the printer loop is index-generic."),
 })
 
